@@ -57,7 +57,7 @@ inline char const* owner_property(int op_kind) {
 	case O_ASSIGN_IL: case O_ASSIGN_IL_EMPTY: case O_ASSIGN_ITER: case O_ASSIGN_RANGE:
 	case O_REEXTENT: case O_REEXTENT_FILL: case O_REEXTENT_MOVE: case O_CLEAR: case O_RESHAPE: return "C06";
 	case O_VASSIGN_VIEW: case O_VASSIGN_ARRAY: case O_VASSIGN_CONV: case O_VASSIGN_RANGE: case O_VASSIGN_IL: case O_VFILL:
-	case O_VSWAP: case O_EASSIGN: case O_EASSIGN_IL: case O_ELEM_WRITE: return "C05";
+	case O_VSWAP: case O_EASSIGN: case O_EASSIGN_IL: case O_ELEM_WRITE: case O_REF_ASSIGN: return "C05";
 	case O_SAVE: case O_LOAD: return "C17";
 	case O_MSG_PACK: case O_MSG_XFER: return "C18";
 	default: return "C04";
